@@ -1,15 +1,17 @@
 #!/bin/bash
-# re-runs every seeded change in /verif/seeded against the checks that are recorded for it (regression suite for the checker)
-cd /verif
+# re-runs every seeded change in seeded/ against the checks recorded for it (regression suite for the checker).
+# location independent: works from /verif or from a `vp run` snapshot of it; applies patches to /repo and reverts.
+HERE="$(cd "$(dirname "$0")" && pwd)"
+cd "$HERE"
 for d in seeded/*/; do
   id=$(basename $d)
   pids=$(python3 -c "import json;print(' '.join(json.load(open('$d/meta.json'))['checks_run_against_it'].keys()))")
-  git -C /repo apply $d/patch.diff || { echo "RESEED $id cannot apply"; continue; }
+  git -C /repo apply "$HERE/$d/patch.diff" || { echo "RESEED $id cannot apply"; continue; }
   res=""
   for P in $pids; do
     out=$(./check $P 2>&1); rc=$?
     res="$res $P:rc=$rc"
-    echo "$out" > $d/check_$P.log
+    echo "$out" | grep -E "^(VIOLATION|UNDECIDED)" | cut -c1-160 | head -3
   done
   git -C /repo checkout -- .
   echo "RESEED $id $res"
